@@ -106,8 +106,8 @@ def run(rep):
     sc = "ScC13Tiny" if quick else "ScC13"
     need = ["Read", "ReadNOp", "Read1N", "Read1All", "ReadInto", "Stream", "ChunkedOp", "Iter", "Preload", "Dispose",
             "NextRequest"]
-    base = dict(sc=sc, dk="AllDamage", amts="A27", amts1="A7", into="A3", gen="A27", maxops=3 if quick else 4)
-    plans = [("repaired design, damaged responses", dict(base, _cov=True, _need=need), None)]
+    base = dict(sc=sc, dk="AllDamage", amts="A27", amts1="A7", into="A3", gen="A27", maxops=3)
+    plans = [("repaired design, damaged responses", dict(base, sc="ScC13", maxops=3 if quick else 4, _cov=True, _need=need), None)]
     for d in ("JustD11", "JustF1", "JustF2", "JustF3", "JustF4"):
         plans.append((f"deviation {d[4:]} exhibited", dict(base, sc="ScC13", maxops=3, kd=d), bc.DEFECT_CLAUSES[d]))
     plans.append(("liveness: an owed error arrives", dict(spec="LiveSpec", sc="ScC13Tiny", dk="AllDamage", amts="A2", amts1="A2",
